@@ -544,6 +544,7 @@ package keyvalue
 //@                     (isType(kvRec(f.fileData.fs, f.fileData.path), mem.fileRecord) && memRec(f.fileData.fs, f.fileData.path).mode == fdMode(f.fileData) &&
 //@                      memRec(f.fileData.fs, f.fileData.path).data == hData(f)))
 //@   ensures "mode-kept" implies(isMem(f.fileData.fs), fdMode(f.fileData) == old(fdMode(f.fileData)))
+//@   ensures "tree" [C03] implies(isMem(f.fileData.fs) && old(treeInv(f.fileData.fs)), treeInv(f.fileData.fs))
 //@   nopanic
 
 //@ spec isAppend(f *file) := f.flag&hackpadfs.FlagAppend != 0
@@ -622,6 +623,7 @@ package keyvalue
 //@                     (isType(kvRec(f.fileData.fs, f.fileData.path), mem.fileRecord) && memRec(f.fileData.fs, f.fileData.path).mode == fdMode(f.fileData) &&
 //@                      memRec(f.fileData.fs, f.fileData.path).data == hData(f)))
 //@   ensures "mode-kept" implies(isMem(f.fileData.fs), fdMode(f.fileData) == old(fdMode(f.fileData)))
+//@   ensures "tree" [C03] implies(isMem(f.fileData.fs) && old(treeInv(f.fileData.fs)), treeInv(f.fileData.fs))
 //@   nopanic
 
 //@ func (f *file) Chmod(mode hackpadfs.FileMode) (err error)
@@ -643,6 +645,7 @@ package keyvalue
 //@                     kvRec(f.fileData.fs, f.fileData.path) == old(kvRec(f.fileData.fs, f.fileData.path)) ||
 //@                     (isType(kvRec(f.fileData.fs, f.fileData.path), mem.fileRecord) && memRec(f.fileData.fs, f.fileData.path).mode == fdMode(f.fileData) &&
 //@                      memRec(f.fileData.fs, f.fileData.path).data == hData(f)))
+//@   ensures "tree" [C03] implies(isMem(f.fileData.fs) && old(treeInv(f.fileData.fs)), treeInv(f.fileData.fs))
 //@   nopanic
 
 //@ func newDirEntry(fs hackpadfs.FS, basePath string, name string) (d *dirEntry, err error)
@@ -880,6 +883,7 @@ package keyvalue
 //@   ensures "mem-world" implies(isMem(fs), world() == old(world()))
 //@   ensures "store-error" [C14] implies(VP(name) && isSerial(fs) && old(storeGetErr(fsStore(fs), name)) != nil, err != nil)
 //@   ensures "inv" fsInv(fs)
+//@   ensures "tree" [C03] implies(isMem(fs) && old(treeInv(fs)), treeInv(fs))
 //@   nopanic
 
 //@ func (fs *FS) Chtimes(name string, atime time.Time, mtime time.Time) (err error)
@@ -895,14 +899,19 @@ package keyvalue
 //@   ensures "mem-world" implies(isMem(fs), world() == old(world()))
 //@   ensures "store-error" [C14] implies(VP(name) && isSerial(fs) && old(storeGetErr(fsStore(fs), name)) != nil, err != nil)
 //@   ensures "inv" fsInv(fs)
+//@   ensures "tree" [C03] implies(isMem(fs) && old(treeInv(fs)), treeInv(fs))
 //@   nopanic
 
+// C03: the record map is a tree: the root is a directory, every key is a valid path whose parent is a directory in the map.
+//@ spec treeInv(fs *FS) := kvHas(fs, ".") && memRec(fs, ".").mode & hackpadfs.ModeDir != 0 &&
+//@        forall(k, dom(ms(fs).records), VP(k) && (k == "." || (kvHas(fs, pdir(k)) && memRec(fs, pdir(k)).mode & hackpadfs.ModeDir != 0)))
 //@ spec memIsDir(fs *FS, name string) := memRec(fs, name).mode & hackpadfs.ModeDir != 0
 //@ spec memHasChildOf(fs *FS, name string) := exists(k, dom(ms(fs).records), mem.isChildKey(k, name))
 
 //@ func (fs *FS) Remove(name string) (err error)
 //@   props C01 C04 C05 C14 C03
 //@   requires fsOK(fs)
+//@   use childDirAll(name)
 //@   modifies world(), mapOf(ms(fs).records)
 //@   ensures "gate" [C04] implies(!VP(name), pathErr(err, "remove", name) && errIs(err, hackpadfs.ErrInvalid) && world() == old(world()) && implies(isMem(fs), memSame(fs)))
 //@   ensures "typed" [C05] implies(err != nil, pathErr(err, "remove", name))
@@ -914,6 +923,7 @@ package keyvalue
 //@   ensures "mem-world" implies(isMem(fs), world() == old(world()))
 //@   ensures "store-error" [C14] implies(VP(name) && isSerial(fs) && old(storeGetErr(fsStore(fs), name)) != nil, err != nil)
 //@   ensures "inv" fsInv(fs)
+//@   ensures "tree" [C03] implies(isMem(fs) && old(treeInv(fs)), treeInv(fs))
 //@   nopanic
 
 //@ spec baseOf(f *file) := fRec(f).record.(*BaseFileRecord)
@@ -951,6 +961,7 @@ package keyvalue
 //@                     err == nil && kvHas(fs, name) && memSameExcept(fs, name) && isType(kvRec(fs, name), mem.fileRecord) &&
 //@                     memRec(fs, name).mode == hackpadfs.ModeDir | (perm & hackpadfs.ModePerm) && emptyBytes(memRec(fs, name).data))
 //@   ensures "mem-world" implies(isMem(fs), world() == old(world()))
+//@   ensures "tree" [C03] implies(isMem(fs) && old(treeInv(fs)), treeInv(fs))
 //@   ensures "store-error" [C14] implies(VP(name) && isSerial(fs) && err == nil, errIs(old(storeGetErr(fsStore(fs), name)), hackpadfs.ErrNotExist))
 //@   ensures "inv" fsInv(fs)
 //@   nopanic
@@ -1034,4 +1045,5 @@ package keyvalue
 //@                     openedFile(afFile).flag == flag && openedFile(afFile).fileData != nil && fresh(openedFile(afFile).fileData) && openedFile(afFile).fileData.path == name && openedFile(afFile).fileData.fs == fs)
 //@   ensures "mem-world" world() == old(world())
 //@   ensures "inv" fsMem(fs)
+//@   ensures "tree" [C03] implies(isMem(fs) && old(treeInv(fs)), treeInv(fs))
 //@   nopanic
